@@ -1,4 +1,113 @@
-// engine K harnesses for module hook 'seq_join' (included under cfg(kani) by /repo)
+// engine K — seq_join/local.rs (property C15). BOUNDED: n futures, window w, at most `polls` calls of poll_next;
+// the readiness of every future at every poll is nondeterministic, so every completion order inside the bound
+// is explored. `periodic_memory_report` is replaced by a no-op (it reaches `tracing`, which crashes kani-compiler).
+use std::future::Future;
+
+use super::*;
+
+static mut POLLS: [u32; 4] = [0; 4];
+static mut DONE: [bool; 4] = [false; 4];
+
+/// future number `i`: at each poll a nondeterministic coin decides whether it completes; yields `i`
+struct Coin(usize);
+impl Future for Coin {
+    type Output = usize;
+    fn poll(self: Pin<&mut Self>, _cx: &mut Context<'_>) -> Poll<usize> {
+        unsafe {
+            assert!(!DONE[self.0], "a completed future must never be polled again");
+            POLLS[self.0] += 1;
+        }
+        if kani::any() {
+            unsafe { DONE[self.0] = true };
+            Poll::Ready(self.0)
+        } else {
+            Poll::Pending
+        }
+    }
+}
+fn polls() -> [u32; 4] {
+    unsafe { POLLS }
+}
+fn done() -> [bool; 4] {
+    unsafe { DONE }
+}
+fn noop_report(_c: usize) {}
+
+fn drive<const N: usize>(w: usize, max_polls: usize, futs: [Coin; N]) {
+    let src = futures::stream::iter(futs);
+    let Some(wnz) = NonZeroUsize::new(w) else { return };
+    let mut sj = SequentialFutures::new(wnz, src);
+    let waker = futures::task::noop_waker();
+    let mut cx = Context::from_waker(&waker);
+    let mut next = 0usize; // number of results delivered so far
+    let mut ended = false;
+    for _ in 0..max_polls {
+        let before = polls();
+        let r = Pin::new(&mut sj).poll_next(&mut cx);
+        let after = polls();
+        match r {
+            Poll::Ready(Some(v)) => {
+                assert!(!ended, "no item after the end of the stream");
+                assert!(v == next, "results are delivered in input order, each exactly once");
+                assert!(done()[v]);
+                next += 1;
+            }
+            Poll::Ready(None) => {
+                assert!(next == N, "the stream ends only after every result was delivered");
+                ended = true;
+                break;
+            }
+            Poll::Pending => {
+                assert!(next < N, "Pending although nothing is left");
+                assert!(!done()[next], "head is complete but was not delivered");
+                let inflight = if w < N - next { w } else { N - next };
+                assert!(sj.active.len() == inflight, "window is kept full while input remains");
+                // every in-flight, not yet complete future was polled (exactly once) by this call
+                let mut k = next;
+                while k < next + inflight {
+                    if !done()[k] || after[k] != before[k] {
+                        assert!(after[k] == before[k] + 1);
+                    }
+                    k += 1;
+                }
+            }
+        }
+    }
+    kani::cover!(ended);
+    kani::cover!(next < N);
+}
+
+#[kani::proof]
+#[kani::unwind(6)]
+#[kani::solver(kissat)]
+#[kani::stub(crate::telemetry::memory::periodic_memory_report, noop_report)]
+fn c15_seq_join_n1_w1() {
+    drive::<1>(1, 3, [Coin(0)]);
+}
+
+#[kani::proof]
+#[kani::unwind(7)]
+#[kani::solver(kissat)]
+#[kani::stub(crate::telemetry::memory::periodic_memory_report, noop_report)]
+fn c15_seq_join_n2_w1() {
+    drive::<2>(1, 4, [Coin(0), Coin(1)]);
+}
+
+#[kani::proof]
+#[kani::unwind(7)]
+#[kani::solver(kissat)]
+#[kani::stub(crate::telemetry::memory::periodic_memory_report, noop_report)]
+fn c15_seq_join_n2_w2() {
+    drive::<2>(2, 4, [Coin(0), Coin(1)]);
+}
+
+#[kani::proof]
+#[kani::unwind(8)]
+#[kani::solver(kissat)]
+#[kani::stub(crate::telemetry::memory::periodic_memory_report, noop_report)]
+fn c15_seq_join_n3_w2() {
+    drive::<3>(2, 5, [Coin(0), Coin(1), Coin(2)]);
+}
 
 #[cfg(test)]
 include!(concat!(env!("IPA_VERIF_DIR"), "/.build/playback/seq_join.rs"));
